@@ -18,14 +18,14 @@ VARIANTS = {
     "msan":    ("clang", "-fsanitize=memory -fsanitize-memory-track-origins -fno-omit-frame-pointer -g",
                 "-O1 -g -fsanitize=memory -fsanitize-memory-track-origins -fno-omit-frame-pointer", "-fsanitize=memory", "-DGMSIM_MSAN -DGMSIM_THREADS"),
 }
-WRAPS = ["send", "recv", "usleep", "time", "getentropy", "close"]
+WRAPS = ["send", "recv", "usleep", "time", "getentropy", "close", "socket", "connect", "gethostbyname"]
 
 # harness sources; files listed in NOSAN are compiled without sanitizer flags in every variant
 SOURCES = ["core.c", "baton.c", "wraps.c", "net.c", "plan.c", "creds.c", "tlsnode.c", "mon.c",
            "scn_common.c", "scn_honest.c", "main.c"]
 OPTIONAL = {
     "scn_mitm.c": "-DHAVE_SCN_MITM", "scn_auth.c": "-DHAVE_SCN_AUTH", "scn_entropy.c": "-DHAVE_SCN_ENTROPY",
-    "scn_byz.c": "-DHAVE_SCN_BYZ", "scn_threads.c": "-DHAVE_SCN_THREADS", "scn_ops.c": "-DHAVE_SCN_OPS",
+    "scn_byz.c": "-DHAVE_SCN_BYZ", "scn_http.c": "-DHAVE_SCN_HTTP", "scn_threads.c": "-DHAVE_SCN_THREADS", "scn_ops.c": "-DHAVE_SCN_OPS",
 }
 NOSAN = {"baton.c"}
 NOSAN_TSAN = {"baton.c", "core.c", "net.c", "wraps.c"}
